@@ -104,8 +104,8 @@ func (b *poolBuilder) strs(vs ...string) {
 	}
 }
 
-// numGrid: quick = both sides of every width boundary; thorough = additionally every count 0..130
-// and every power of two with its neighbours. thorough is a superset of quick in the same order.
+// numGrid: quick = both sides of every width boundary; thorough = additionally every count 0..66,
+// more counts beyond the word size and further powers of two with their neighbours. thorough is a superset of quick in the same order.
 func numGrid(tier string) []pval {
 	b := &poolBuilder{seen: map[string]bool{}}
 	const p31, p32, p53, p62 = int64(1) << 31, int64(1) << 32, int64(1) << 53, int64(1) << 62
@@ -114,15 +114,15 @@ func numGrid(tier string) []pval {
 		math.MaxInt64-1, math.MaxInt64, math.MinInt64, math.MinInt64+1, 0x5555555555555555, -0x5555555555555556)
 	b.floats(0, 0.5, -0.5, 1, 2, -2.5, 64, 0.1, 1e18, float64(p53), 9223372036854775808.0, -9223372036854775808.0, math.NaN(), math.Inf(1))
 	if tier == "thorough" {
-		for i := int64(0); i <= 130; i++ {
+		for i := int64(0); i <= 66; i++ { // every shift count / small exponent up to and across the word size
 			b.ints(i)
 		}
-		for k := uint(8); k <= 62; k++ {
+		b.ints(100, 126, 129, 130, 255, 256, -65, p32+64, p62+1)
+		for _, k := range []uint{8, 16, 24, 40, 47, 48, 52, 54, 61} {
 			b.ints(int64(1)<<k-1, int64(1)<<k, -(int64(1) << k))
 		}
-		b.ints(5, 10, 66, 100, 255, -65, p32+64, p62+1)
-		b.floats(math.Copysign(0, -1), -1, 1.5, 2.5, 63, 1e308, 5e-324, math.Inf(-1))
 		b.ints(-5, -7, -10, -31, -32, -33, -62, -66, -127, -128, -p32, -p53, 1000003, -1000003)
+		b.floats(math.Copysign(0, -1), -1, 1.5, 2.5, 63, 1e308, 5e-324, math.Inf(-1))
 		b.floats(-1.5, 3, -3, 0.25, 1e-7, 1e15, 4294967296.0, -4294967296.0, 9007199254740993.0, 1.7976931348623157e308, -1e308, 31, 32, 65)
 	}
 	return b.p
